@@ -128,10 +128,14 @@ Fixpoint dget (k : seg) (m : dict) : option json :=
   | (k', v) :: m' => if seg_eqb k k' then Some v else dget k m'
   end.
 
+Definition bool_z (b : bool) : Z := if b then 1%Z else 0%Z.
+
 Fixpoint json_eq (a b : json) {struct a} : bool :=
   match a, b with
   | JNull, JNull => true
   | JBool x, JBool y => Bool.eqb x y
+  | JBool x, JInt y => Z.eqb (bool_z x) y      (* True == 1, False == 0 *)
+  | JInt x, JBool y => Z.eqb x (bool_z y)
   | JInt x, JInt y => Z.eqb x y
   | JFlt x, JFlt y => N.eqb x y
   | JStr x, JStr y => str_eqb x y
